@@ -11,6 +11,8 @@ from fractions import Fraction
 from pathlib import Path
 
 import auditok
+
+from ..gen import audio as A
 from auditok import AudioRegion
 from auditok.io import from_file, to_file
 
@@ -77,7 +79,7 @@ def gen_audio(rng):
     width, channels = rng.choice((1, 2, 4)), rng.choice((1, 2, 3, 4))
     rate = rng.choice((8, 10, 100, 8000, 16000, 44100, 48000))
     n = rng.choice((0, 1, 2, rng.randint(0, 12), rng.randint(0, 60)))
-    return rng.randbytes(n * width * channels), rate, width, channels
+    return A.random_bytes(rng, n, width, channels), rate, width, channels
 
 
 def check_write(ctx, rng, tmp, data, rate, width, channels):
